@@ -90,7 +90,7 @@ type caseT struct {
 
 func main() {
 	r := lib.Start("C06", "exploration")
-	r.Rule = "product of scheme {notary.x509, signingAuthority} x format x 8 chain window placements (leaf / issuer / trust anchor each valid around now, expired, not yet valid) x signing time (inside / before all windows; signing authority also after) x expiry {none, past, future} x tsa store listed x verifyTimestamp {unset, always, afterCertExpiry} x countersignature {absent, good, wrong message, untrusted TSA, TSA root only in a ca store, EKU missing / extra / non-critical, TSA revoked / unknown / validator error, gen-time before / inside / after the windows, accuracy straddling the lower / upper window edge, accuracy just inside}; quick = x509/JWS full + the other three combinations on a covering subset, thorough = full; distinct by the tuple; non-trivial = anything but (valid chain, no expiry, no tsa store)"
+	r.Rule = "product of scheme {notary.x509, signingAuthority} x format x 8 chain window placements (leaf / issuer / trust anchor each valid around now, expired, not yet valid) x signing time (inside / before all windows; signing authority also after) x expiry {none, past, future} x tsa store listed x verifyTimestamp {unset, always, afterCertExpiry} x countersignature {absent, good, wrong message, untrusted TSA, TSA root only in a ca store, EKU missing / extra / non-critical, key usage without digitalSignature, TSA certificate that is a CA, tsa store unloadable / empty, TSA revoked / unknown / validator error, gen-time before / inside / after the windows, accuracy straddling the lower / upper window edge, accuracy just inside}; quick = x509/JWS full + the other three combinations on a covering subset, thorough = full; distinct by the tuple; non-trivial = anything but (valid chain, no expiry, no tsa store)"
 	r.Assumptions = []string{"all generated instants are >= 5 days away from now; the boundary 'expiry == now' is unreachable without a clock hook",
 		"window edges relative to a countersignature are exercised with second resolution at instants far from now",
 		"one-directional clauses ('passes only if') are judged in that direction; expiry is judged in both directions as stated"}
@@ -100,7 +100,7 @@ func main() {
 	tsaRoot := lib.Mint(nil, lib.CertSpec{CN: "c06-tsa-root", Kind: "ca", KeyIdx: 6, NotBefore: now.Add(-3000 * day), NotAfter: now.Add(3000 * day)})
 	otherTSARoot := lib.Mint(nil, lib.CertSpec{CN: "c06-other-tsa-root", Kind: "ca", KeyIdx: 5, NotBefore: now.Add(-3000 * day), NotAfter: now.Add(3000 * day)})
 	tsaLeaf := map[string]*lib.Ent{}
-	for _, k := range []string{"tsa", "tsa-noncrit", "tsa-extra", "tsa-none"} {
+	for _, k := range []string{"tsa", "tsa-noncrit", "tsa-extra", "tsa-none", "tsa-keyusage", "tsa-ca"} {
 		tsaLeaf[k] = lib.Mint(tsaRoot, lib.CertSpec{CN: "c06-" + k, Kind: k, KeyIdx: 2, NotBefore: now.Add(-2900 * day), NotAfter: now.Add(2900 * day)})
 	}
 	untrustedTSA := lib.Mint(otherTSARoot, lib.CertSpec{CN: "c06-untrusted-tsa", Kind: "tsa", KeyIdx: 3, NotBefore: now.Add(-2900 * day), NotAfter: now.Add(2900 * day)})
@@ -123,7 +123,7 @@ func main() {
 	desc := lib.Desc(ocispec.MediaTypeImageManifest, []byte("c06"))
 	payload := lib.Payload(desc)
 
-	tokens := []string{"absent", "good", "wrong-message", "untrusted-tsa", "tsa-root-in-ca-store-only", "eku-missing", "eku-extra", "eku-non-critical", "tsa-revoked", "tsa-unknown", "tsa-validator-error",
+	tokens := []string{"absent", "good", "wrong-message", "untrusted-tsa", "tsa-root-in-ca-store-only", "eku-missing", "eku-extra", "eku-non-critical", "tsa-key-usage-without-signing", "tsa-certificate-is-a-ca", "tsa-store-unloadable", "tsa-store-empty", "tsa-revoked", "tsa-unknown", "tsa-validator-error",
 		"gen-before-windows", "gen-after-windows", "accuracy-straddles-lower-edge", "accuracy-straddles-upper-edge", "accuracy-just-inside-upper-edge", "garbage"}
 	var cases []caseT
 	combos := [][2]string{{lib.MediaJWS, "notary.x509"}, {lib.MediaCOSE, "notary.x509"}, {lib.MediaJWS, "notary.x509.signingAuthority"}, {lib.MediaCOSE, "notary.x509.signingAuthority"}}
@@ -250,6 +250,12 @@ func main() {
 			tsa, tokenOK = &lib.TSA{Key: tsaLeaf["tsa-extra"].Key, Chain: tsaLeaf["tsa-extra"].Chain()}, false
 		case "eku-non-critical":
 			tsa, tokenOK = &lib.TSA{Key: tsaLeaf["tsa-noncrit"].Key, Chain: tsaLeaf["tsa-noncrit"].Chain()}, false
+		case "tsa-key-usage-without-signing":
+			tsa, tokenOK = &lib.TSA{Key: tsaLeaf["tsa-keyusage"].Key, Chain: tsaLeaf["tsa-keyusage"].Chain()}, false
+		case "tsa-certificate-is-a-ca":
+			tsa, tokenOK = &lib.TSA{Key: tsaLeaf["tsa-ca"].Key, Chain: tsaLeaf["tsa-ca"].Chain()}, false
+		case "tsa-store-unloadable", "tsa-store-empty": // a perfectly good token, but the listed tsa store delivers nothing to chain it to
+			tokenOK = false
 		case "tsa-revoked":
 			tsRevStatus, tokenOK = "revoked", false
 		case "tsa-unknown":
@@ -288,7 +294,13 @@ func main() {
 		ts := lib.NewMemTS().Put(storeType+":x", chains[c.Chain].root.Cert, tsaRoot.Cert)
 		if c.TSAListed {
 			stores = append(stores, "tsa:t")
-			ts.Put("tsa:t", tsaInTSAStore)
+			switch c.Token {
+			case "tsa-store-unloadable":
+			case "tsa-store-empty":
+				ts.Stores["tsa:t"] = []*x509.Certificate{}
+			default:
+				ts.Put("tsa:t", tsaInTSAStore)
+			}
 		}
 		L := lib.LevelMap{Auth: "log", TS: "log", Exp: "log", Rev: "log"}
 		if ci%3 == 0 {
